@@ -715,6 +715,10 @@ func AvgDistanceMatrix(metric int, treechan <-chan Trees) (matrix [][]float64, t
 	var ntrees int
 
 	for t := range treechan {
+		if t.Err != nil {
+			err = t.Err
+			return
+		}
 		if matrix == nil {
 			matrix, tips = t.Tree.ToDistanceMatrix(metric)
 		} else {
